@@ -18,3 +18,4 @@ def check(repo, rep, tier):
     rs.rule_no_module_state(em, rep, 'C18.N3', modules=('compiler', 'yp_generator', 'yp_prolog_visitor', 'errors'))
     rs.rule_no_shared_class_attrs(em, rep, 'C18.N3b')
     re_.rule_fresh_pipeline(cm, rep, 'C18.N4')
+    rs.rule_context_not_written(em, rep, 'C18.N3c')
